@@ -20,7 +20,7 @@ PRECISION = ['int16', 'int32', 'int64', 'uint16', 'float32', 'uint8', 'uint32']
 CLASSES = LAYOUT + CONTAINER + PRECISION + ['mixed_units']
 
 RULE = ('one case = one random scene (elliptical Gaussians + noise, structured error and background maps, mask, '
-        'segmentation map) x one representation x 6 entry points drawn from the table; every array argument of the '
+        'segmentation map) x one representation x 4 entry points drawn from the table; every array argument of the '
         'entry point is converted AFTER all scene arithmetic was done in float64 (precision-changing variants use '
         'integer-valued scenes so that int16/int32/int64/uint16/float32 hold exactly the same numbers; the harness '
         'asserts exact representability); baseline = native C-contiguous float64. non-trivial = at least one entry '
@@ -38,7 +38,7 @@ ANCHOR_FILES = ['utils/_quantity_helpers.py', 'utils/errors.py', 'utils/_stats.p
                 'segmentation/catalog.py', 'psf/photometry.py', 'detection/daofinder.py', 'utils/_convolution.py',
                 'segmentation/detect.py', 'detection/peakfinder.py', 'profiles/core.py', 'centroids/core.py',
                 'datasets/images.py']
-MIN_NONTRIVIAL = {'quick': 150, 'thorough': 3000}
+MIN_NONTRIVIAL = {'quick': 90, 'thorough': 2000}
 ASSUMPTIONS = [
     'numpy dtype/layout conversions (astype, asfortranarray, slicing, newbyteorder) are trusted to preserve values; '
     'the harness asserts exact round-trip to float64 for the precision-changing variants',
@@ -54,7 +54,7 @@ ASSUMPTIONS = [
 
 VP_RTOL = 1e-9
 PC_RTOL = 2e-4
-NEPS_PER_CASE = 6
+NEPS_PER_CASE = 4
 
 
 def plan(tier):
@@ -419,7 +419,8 @@ def run_case(case):
     r = rng.random()
     flav = 'stars' if r < (0.5 if variant == 'nddata' else 0.25) else (
         'pedestal' if r < 0.45 and variant not in ('nddata', 'mixed_units') else
-        'galaxy' if r < 0.58 and variant not in ('nddata', 'mixed_units', 'quantity') else 'general')
+        'galaxy' if r < (0.70 if repr_kind(variant) == 'integer' else 0.55)
+        and variant not in ('nddata', 'mixed_units', 'quantity') else 'general')
     if variant == 'uint8' and flav in ('pedestal', 'galaxy'):
         flav = 'stars' if r < 0.5 else 'general'      # those images need 15 bits; uint8 gets the star-finder scenes instead
     # generic axis (i): overall magnitude of every value-like input (integer-valued scenes of the precision-changing
